@@ -61,6 +61,8 @@ pub struct Profile {
     pub fixed_fields: bool,
     /// scalar constraint values stay below 2^(w-1)
     pub signed_constraints: bool,
+    /// every enum declares at least one plain value tag
+    pub enum_needs_value: bool,
 }
 
 impl Profile {
@@ -109,13 +111,14 @@ impl Profile {
             struct_arrays_by_size: true,
             fixed_fields: true,
             signed_constraints: false,
+            enum_needs_value: false,
         }
     }
     pub fn rust_rt() -> Profile {
         Profile { name: "rust-rt".into(), round_trip: true, unsized_not_last: false, ..Profile::rust() }
     }
     pub fn python() -> Profile {
-        Profile { name: "python".into(), structs_first: true, elemsize: false, custom: false, array_modifier: true, enum_default_first: true, struct_inherit: true, ..Profile::rust() }
+        Profile { name: "python".into(), enum_needs_value: true, structs_first: true, elemsize: false, custom: false, array_modifier: true, enum_default_first: false, enum_first_value: false, struct_inherit: false, ..Profile::rust() }
     }
     pub fn cxx() -> Profile {
         Profile { name: "cxx".into(), nonempty_records: true, structs_first: true, enum_first_value: true, enum_default_first: false, odd_scalar_arrays: false, one_enum_per_struct_run: true, child_payload_unsized: true, round_trip: true, unsized_not_last: false, custom: false, struct_inherit: false, array_modifier: true, optional: false, ..Profile::rust() }
@@ -358,6 +361,9 @@ impl<'a, 'b> Gen<'a, 'b> {
                     };
                 }
             }
+        }
+        if self.p.enum_needs_value && !tags.iter().any(|t| matches!(t, Tag::Value { .. })) {
+            tags = vec![Tag::Value { id: tid(&mut ntag), v: 0 }];
         }
         if self.p.enum_first_value && !matches!(tags.first(), Some(Tag::Value { .. })) {
             if let Some(k) = tags.iter().position(|t| matches!(t, Tag::Value { .. })) {
